@@ -37,6 +37,9 @@ type FuncSpec struct {
 	AssignGlobals []string
 	Loops     map[string]*LoopSpec
 	Inline    bool
+	Inlines   []string
+	SplitParam string
+	SplitLo, SplitHi int64
 	GhostLogs [][2]string
 	Pure      bool
 	OpaqueFns []string
@@ -774,9 +777,11 @@ func (x *Exec) havocLocation(loc Value, name string) {
 			return
 		}
 		cur := x.load(l)
-		var t types.Type
-		if len(l.Path) == 0 {
-			t = l.Obj.Typ
+		t := typeAtPath(l.Obj.Typ, l.Path)
+		if t == nil {
+			if _, isSlice := cur.(SliceV); isSlice {
+				unsup("assigns of a slice-typed location whose type is unknown")
+			}
 		}
 		x.store(l, x.havocValue(cur, t, name), True())
 	case SliceV:
@@ -1047,4 +1052,28 @@ func (x *Exec) cloneResult(v Value, snap map[*Object]Value, done map[*Object]*Ob
 		return vv
 	}
 	return v
+}
+
+// typeAtPath follows a pointer path (struct fields, array elements) from the type of an object.
+func typeAtPath(t types.Type, path []PathElem) types.Type {
+	for _, pe := range path {
+		if t == nil {
+			return nil
+		}
+		switch u := t.Underlying().(type) {
+		case *types.Struct:
+			if pe.Idx != nil || pe.Field < 0 || pe.Field >= u.NumFields() {
+				return nil
+			}
+			t = u.Field(pe.Field).Type()
+		case *types.Array:
+			if pe.Idx == nil {
+				return nil
+			}
+			t = u.Elem()
+		default:
+			return nil
+		}
+	}
+	return t
 }
